@@ -103,7 +103,6 @@ func genC07Script(r *wk.Rand, tag string) []c07Item {
 	return items
 }
 
-
 const c07NMalformed = 9
 const c07NGarbage = 7
 
